@@ -14,6 +14,7 @@ mod mkfs;
 mod selftest;
 mod vm;
 
+mod checks;
 mod codec;
 
 use report::{Ctx, Tier};
@@ -86,6 +87,8 @@ fn main() {
     report::quiet_panics();
     let code = match which.to_uppercase().as_str() {
         "SELFTEST" => selftest::run(&ctx),
+        "C06" => checks::c06::run(&ctx),
+        "C15" => checks::c15::run(&ctx),
         "C17" => codec::lfn::run(&ctx),
         "C18" => codec::entry::run(&ctx),
         "C19" => codec::crc::run(&ctx),
